@@ -179,7 +179,7 @@ func roundTripCase(c *core.Ctx, idx int, mode int) {
 			return
 		}
 	}
-	if idx%8 == 5 && tc.typ.Kind() == reflect.Struct && last.IsValid() {
+	if idx%7 == 5 && tc.typ.Kind() == reflect.Struct && last.IsValid() {
 		sizedBodies(c, idx, tc, last, mode)
 	}
 }
@@ -215,13 +215,15 @@ func sizedBodies(c *core.Ctx, idx int, tc *tcase, v reflect.Value, mode int) {
 	// the body sizes around each boundary, so that the frames around the body (map entry, element,
 	// the enclosing struct with its other fields) land on the boundary as well
 	var targets []int
-	bounds := []int{128, 16384}
-	if c.Thorough() && idx%64 == 5 {
-		bounds = append(bounds, 1<<21)
-	}
-	for _, b := range bounds {
+	for _, b := range []int{128, 16384} {
 		for d := -12; d <= 1; d++ {
 			targets = append(targets, b+d)
+		}
+	}
+	if c.Thorough() && idx%257 == 5 {
+		// (a modulus coprime to the shard count, and few sizes: each of these costs megabytes)
+		for d := -2; d <= 1; d++ {
+			targets = append(targets, 1<<21+d)
 		}
 	}
 	sf := func(name string, t reflect.Type, tag string) reflect.StructField {
@@ -621,7 +623,7 @@ func init() {
 	genRule := "types: seeded random struct/slice/map/pointer compositions built with reflect (depth<=3, indexes over the 1/2-byte tag boundaries, flat/intern/proto options, json tags, skipped and unexported fields) plus a committed library of named, recursive, mutually recursive and embedding types; " +
 		"values: boundary-biased (every varint group edge, width limits, -0/NaN/denormals, strings around the 1/2/3-byte length prefixes, nil/empty/zero-keyed containers, zoned and monotonic times, null.* presence, JSON-any trees); four Plenc configurations. " +
 		"Every third value also goes through a long-lived instance per configuration that has built the codecs of all earlier cases; between the values of a case, damaged encodings (cut, bit flipped, continuation bit set) of the previous value are decoded on both instances, whatever they return. " +
-		"Every eighth struct type is padded to encodings of every size from b-12 to b+1 for b = 128, 16384 (thorough: also 2^21) and nested as field, pointer target, slice element, map value and proto map value of a struct inside an outer struct. Every 509th case round-trips a container with 70 001 - 1 200 017 entries (strings, structs, pointers, byte slices, times, nested slices, map entries; plain and proto-tagged). Descriptor() of the type is asked for between the calls of a case. " +
+		"Every seventh struct type is padded to encodings of every size from b-12 to b+1 for b = 128, 16384 (thorough: also 2^21) and nested as field, pointer target, slice element, map value and proto map value of a struct inside an outer struct. Every 509th case round-trips a container with 70 001 - 1 200 017 entries (strings, structs, pointers, byte slices, times, nested slices, map entries; plain and proto-tagged). Descriptor() of the type is asked for between the calls of a case. " +
 		"A case is non-trivial when its value has a non-zero scalar, non-empty container or non-nil pointer; distinct = distinct (type, configuration, value-shape class) hashes."
 	core.Register(&core.Prop{
 		ID:        "C01",
